@@ -43,19 +43,36 @@ def st (Z : Pos) : List Tok → Pos
   | [] => Z
   | t :: _ => t.rng.s
 
-/-- tokens as the lexer produces them: non-empty, each ends before the next begins, the last one
-    no later than `Z` -/
+/-- token kinds that must not be empty: the member-access operators (`parse_dot_ops` synthesises the range
+    `start+1 … start+2` for the missing right operand of a dangling operator).  The lexer DOES produce empty
+    ranges for other kinds — a token's range covers its VALUE: `''` and a comment `;` at the end of a line are empty. -/
+def strictKinds : List Kind := Gen.opsOf "parse_dot_ops"
+
+/-- a token's own range: `start ≤ end`, strictly for the member-access operators -/
+def TokOK (t : Tok) : Prop := t.rng.s.le t.rng.e = true ∧ (strictKinds.contains t.kind = true → Pos.lt t.rng.s t.rng.e = true)
+
+/-- token kinds whose range may END too far to the right: the lexer ends a token at `start + value.len()`, the
+    length in BYTES, so a string literal or a comment holding multi-byte characters reaches over the tokens
+    that follow it on the line (`'漢漢'.x`: the literal is `0:0-0:6`, the `.` starts at `0:4`) -/
+def looseKinds : List Kind := [Kind.StringLiteral, Kind.Comment]
+
+/-- where a token ends relative to the position `hi` of what follows: it STARTS no later, and unless its kind is
+    loose it also ends no later -/
+def Ends (t : Tok) (hi : Pos) : Prop :=
+  t.rng.s.le hi = true ∧ (looseKinds.contains t.kind = false → t.rng.e.le hi = true)
+
+theorem Ends.mono {t : Tok} {hi hi' : Pos} (h : Ends t hi) (h' : hi.le hi' = true) : Ends t hi' :=
+  ⟨Pos.le_trans h.1 h', fun hk => Pos.le_trans (h.2 hk) h'⟩
+
+/-- tokens as the lexer produces them: each well-formed (`TokOK`), on a line of the document, starting no later
+    than the next one (and, loose kinds apart, ending no later than the next one begins) -/
 def Lexed (Z : Pos) : List Tok → Prop
   | [] => True
-  | t :: rest => Pos.lt t.rng.s t.rng.e = true ∧ t.rng.e.le (st Z rest) = true ∧ Lexed Z rest
+  | t :: rest => TokOK t ∧ t.rng.e.line ≤ Z.line ∧ Ends t (st Z rest) ∧ Lexed Z rest
 
 theorem Lexed.st_le {Z : Pos} : ∀ {ts : List Tok}, Lexed Z ts → (st Z ts).le Z = true
   | [], _ => Pos.le_refl Z
-  | t :: rest, h => by
-    have := Lexed.st_le h.2.2
-    have h1 := h.1; have h2 := h.2.1
-    simp only [st] at *
-    pos_arith
+  | t :: rest, h => Pos.le_trans h.2.2.1.1 (Lexed.st_le h.2.2.2)
 
 theorem Lexed.suffix {Z : Pos} {ts r : List Tok} (h : Lexed Z ts) (hs : r <:+ ts) :
     Lexed Z r ∧ (st Z ts).le (st Z r) = true := by
@@ -64,26 +81,18 @@ theorem Lexed.suffix {Z : Pos} {ts r : List Tok} (h : Lexed Z ts) (hs : r <:+ ts
   | cons x xs ih =>
     rcases List.suffix_cons_iff.mp hs with rfl | h2
     · exact ⟨h, Pos.le_refl _⟩
-    · obtain ⟨i1, i2⟩ := ih h.2.2 h2
-      refine ⟨i1, ?_⟩
-      have h1 := h.1; have h3 := h.2.1
-      simp only [st] at *
-      pos_arith
+    · obtain ⟨i1, i2⟩ := ih h.2.2.2 h2
+      exact ⟨i1, Pos.le_trans h.2.2.1.1 i2⟩
 
 /-- a token of a lexed list, with what precedes and follows it -/
 theorem Lexed.split {Z : Pos} {pre : List Tok} {t : Tok} {r : List Tok} (h : Lexed Z (pre ++ t :: r)) :
-    (st Z (pre ++ t :: r)).le t.rng.s = true ∧ Pos.lt t.rng.s t.rng.e = true ∧ t.rng.e.le (st Z r) = true ∧
-    t.rng.e.le Z = true := by
+    (st Z (pre ++ t :: r)).le t.rng.s = true ∧ TokOK t ∧ Ends t (st Z r) ∧ t.rng.e.line ≤ Z.line := by
   have hs : (t :: r) <:+ (pre ++ t :: r) := List.suffix_append _ _
   obtain ⟨h1, h2⟩ := h.suffix hs
-  have h3 := Lexed.st_le h1.2.2
-  have h4 := h1.1; have h5 := h1.2.1
-  simp only [st] at h2
-  refine ⟨h2, h4, h5, ?_⟩
-  pos_arith
+  exact ⟨h2, h1.1, h1.2.2.1, h1.2.1⟩
 
 theorem Lexed.mem {Z : Pos} {ts : List Tok} {t : Tok} (h : Lexed Z ts) (ht : t ∈ ts) :
-    (st Z ts).le t.rng.s = true ∧ Pos.lt t.rng.s t.rng.e = true ∧ t.rng.e.le Z = true := by
+    (st Z ts).le t.rng.s = true ∧ TokOK t ∧ t.rng.e.line ≤ Z.line := by
   obtain ⟨pre, r, rfl⟩ := List.append_of_mem ht
   obtain ⟨h1, h2, _, h4⟩ := h.split
   exact ⟨h1, h2, h4⟩
@@ -92,24 +101,10 @@ theorem Lexed.append_left {Z : Pos} {a b : List Tok} (h : Lexed Z (a ++ b)) : Le
   induction a with
   | nil => trivial
   | cons x xs ih =>
-    refine ⟨h.1, ?_, ih h.2.2⟩
+    refine ⟨h.1, h.2.1, ?_, ih h.2.2.2⟩
     cases xs with
-    | nil =>
-      have h2 : x.rng.e.le (st Z b) = true := h.2.1
-      have := Lexed.st_le (Z := Z) (ts := b) h.2.2
-      simp only [st]
-      pos_arith
-    | cons y ys => exact h.2.1
-
-/-- the stronger hypothesis implies the one of `Props/C08` -/
-theorem Lexed.sorted {Z : Pos} : ∀ {ts : List Tok}, Lexed Z ts → Sorted ts
-  | [], _ => trivial
-  | t :: rest, h => by
-    refine ⟨Pos.lt_le h.1, ?_, Lexed.sorted h.2.2⟩
-    intro u hu
-    obtain ⟨h1, h2, _⟩ := h.2.2.mem hu
-    have h3 := h.1; have h4 := h.2.1
-    constructor <;> pos_arith
+    | nil => exact Ends.mono h.2.2.1 (Lexed.st_le (Z := Z) (ts := b) h.2.2.2)
+    | cons y ys => exact h.2.2.1
 
 /-! ## values -/
 
@@ -130,9 +125,9 @@ def PItem (Z : Pos) : Post := fun lo hi v =>
 /-- an AST node -/
 def PReal (Z : Pos) : Post := fun lo hi v => PItem Z lo hi v ∧ v.tok? = none
 
-/-- a token: it lies inside `[lo, hi]` -/
+/-- a token: it starts inside `[lo, hi]` (and ends there, unless its kind is loose) -/
 def PLeaf (Z : Pos) : Post := fun lo hi v =>
-  ∃ t, v = .leaf t ∧ lo.le t.rng.s = true ∧ Pos.lt t.rng.s t.rng.e = true ∧ t.rng.e.le hi = true ∧ t.rng.e.line ≤ Z.line
+  ∃ t, v = .leaf t ∧ lo.le t.rng.s = true ∧ TokOK t ∧ Ends t hi ∧ t.rng.e.line ≤ Z.line
 
 def PNone : Post := fun lo hi v => v = Tree.none ∧ lo.le hi = true
 
@@ -177,9 +172,7 @@ theorem kind_name_notGroup (k : Kind) : groupKinds.contains k.name = false := by
 
 theorem PLeaf.item {Z lo hi : Pos} {v : Tree} (h : PLeaf Z lo hi v) : PItem Z lo hi v := by
   obtain ⟨t, rfl, h1, h2, h3, h4⟩ := h
-  refine ⟨h1, ?_, ⟨?_, h4⟩, kind_name_notGroup _⟩
-  · simp only [Tree.rng]; pos_arith
-  · simp only [Tree.rangesOK]; pos_arith
+  exact ⟨h1, h3.1, ⟨h2.1, h4⟩, kind_name_notGroup _⟩
 
 theorem isNone_of_notGroup {v : Tree} (h : groupKinds.contains v.kind = false) : v.isNone = false := by
   cases v with
@@ -263,7 +256,7 @@ theorem err_facts {f : Nat} {g : G} {ts e : List Tok} {m : String} (h : (runP Γ
 /-! ### tokens -/
 
 theorem expTokGo_ok (k : Kind) (orig : List Tok) : ∀ (l r : List Tok) (v : Tree), expTokGo k orig l = .ok r v →
-    ∃ t pre, v = .leaf t ∧ l = pre ++ t :: r := by
+    ∃ t pre, v = .leaf t ∧ l = pre ++ t :: r ∧ t.kind = k := by
   intro l
   induction l with
   | nil => intro r v h; simp [expTokGo] at h
@@ -271,10 +264,10 @@ theorem expTokGo_ok (k : Kind) (orig : List Tok) : ∀ (l r : List Tok) (v : Tre
     intro r v h
     simp only [expTokGo] at h
     split at h
-    · cases h; exact ⟨x, [], rfl, rfl⟩
+    · next hk => cases h; exact ⟨x, [], rfl, rfl, hk⟩
     · split at h
-      · obtain ⟨t, pre, h1, h2⟩ := ih r v h
-        exact ⟨t, x :: pre, h1, by rw [h2]; rfl⟩
+      · obtain ⟨t, pre, h1, h2, h3⟩ := ih r v h
+        exact ⟨t, x :: pre, h1, by rw [h2]; rfl, h3⟩
       · cases h
 
 theorem expIdentGo_ok (s : String) (orig : List Tok) : ∀ (l r : List Tok) (v : Tree), expIdentGo s orig l = .ok r v →
@@ -295,15 +288,43 @@ theorem expIdentGo_ok (s : String) (orig : List Tok) : ∀ (l r : List Tok) (v :
 theorem leaf_of_split {pre : List Tok} {t : Tok} {r : List Tok} (hL : Lexed Z (pre ++ t :: r)) :
     PLeaf Z (st Z (pre ++ t :: r)) (st Z r) (.leaf t) := by
   obtain ⟨h1, h2, h3, h4⟩ := hL.split
-  exact ⟨t, rfl, h1, h2, h3, Pos.le_line h4⟩
+  exact ⟨t, rfl, h1, h2, h3, h4⟩
 
 theorem Der.tok {F : Nat} (k : Kind) : Der Γ Δ Z F (.tok k) (PLeaf Z) := by
   apply Der.step
   intro f _ ts hL
   simp only [runP]
   refine ⟨DOK.nil, fun r v h => ?_⟩
-  obtain ⟨t, pre, rfl, rfl⟩ := expTokGo_ok k ts ts r v h
+  obtain ⟨t, pre, rfl, rfl, _⟩ := expTokGo_ok k ts ts r v h
   exact leaf_of_split hL
+
+/-- a token of a kind that must not be empty: the leaf is strictly non-empty and ends inside the interval -/
+def PLeafS (Z : Pos) : Post := fun lo hi v => PLeaf Z lo hi v ∧ Pos.lt v.rng.s v.rng.e = true ∧ v.rng.e.le hi = true
+
+/-- a token of a kind that is not loose: the leaf ends inside the interval -/
+def PLeafT (Z : Pos) : Post := fun lo hi v => PLeaf Z lo hi v ∧ v.rng.e.le hi = true
+
+theorem Der.tokK {F : Nat} (k : Kind) :
+    Der Γ Δ Z F (.tok k) (fun lo hi v => PLeaf Z lo hi v ∧ ∃ t, v = .leaf t ∧ t.kind = k ∧ TokOK t ∧ Ends t hi) := by
+  apply Der.step
+  intro f _ ts hL
+  simp only [runP]
+  refine ⟨DOK.nil, fun r v h => ?_⟩
+  obtain ⟨t, pre, rfl, rfl, hkind⟩ := expTokGo_ok k ts ts r v h
+  have hl := leaf_of_split hL
+  refine ⟨hl, t, rfl, hkind, ?_⟩
+  obtain ⟨t', ht, _, h2, h3, _⟩ := hl
+  cases ht
+  exact ⟨h2, h3⟩
+
+theorem Der.tokT {F : Nat} (k : Kind) (hk : looseKinds.contains k = false) : Der Γ Δ Z F (.tok k) (PLeafT Z) :=
+  (Der.tokK k).weaken (fun _ _ _ ⟨h1, t, e, hkind, _, h3⟩ => ⟨h1, by subst e; exact h3.2 (by rw [hkind]; exact hk)⟩)
+
+theorem Der.tokS {F : Nat} (k : Kind) (hk : strictKinds.contains k = true) (hl : looseKinds.contains k = false) :
+    Der Γ Δ Z F (.tok k) (PLeafS Z) :=
+  (Der.tokK k).weaken (fun _ _ _ ⟨h1, t, e, hkind, h2, h3⟩ => by
+    subst e
+    exact ⟨h1, h2.2 (by rw [hkind]; exact hk), h3.2 (by rw [hkind]; exact hl)⟩)
 
 theorem Der.identVal {F : Nat} (s : String) : Der Γ Δ Z F (.identVal s) (PLeaf Z) := by
   apply Der.step
@@ -543,7 +564,7 @@ theorem recoverStep_dok {m : RecMode} {ts e : List Tok} {msg : String} (hL : Lex
   have tokOK : ∀ t ∈ ts, t.rng.ok = true ∧ t.rng.e.line ≤ Z.line := by
     intro t ht
     obtain ⟨_, h2, h3⟩ := hL.mem ht
-    exact ⟨Pos.lt_le h2, Pos.le_line h3⟩
+    exact ⟨h2.1, h3⟩
   have zeroOK : Range.zero.ok = true ∧ Range.zero.e.line ≤ Z.line := ⟨by decide, Nat.zero_le _⟩
   have lastOK : (match ts.getLast? with | some t => t.rng | none => Range.zero).ok = true ∧
       (match ts.getLast? with | some t => t.rng | none => Range.zero).e.line ≤ Z.line := by
@@ -557,7 +578,7 @@ theorem recoverStep_dok {m : RecMode} {ts e : List Tok} {msg : String} (hL : Lex
     | nil => cases hu
     | cons x xs =>
       simp only [headRng, st] at h1 ⊢
-      exact ⟨Pos.le_trans h1 (Pos.lt_le h2), Pos.le_line h3⟩
+      exact ⟨Pos.le_trans h1 h2.1, h3⟩
   cases m with
   | skipTok =>
     intro x hx
@@ -630,7 +651,7 @@ theorem Der.catchErr {F : Nat} {g : G} {Q : Post} (hg : Der Γ Δ Z F g Q) :
     | cons u us =>
       intro _
       obtain ⟨h1, h2, h3⟩ := hL.mem (hs.subset List.mem_cons_self)
-      exact ⟨h1, Pos.lt_le h2, Pos.le_line h3⟩
+      exact ⟨h1, h2.1, h3⟩
 
 /-! ### slices -/
 
@@ -683,7 +704,7 @@ theorem sliceNode_ok {body : List Tok} (hL : Lexed Z body) : PSlice Z (sliceNode
     | some t =>
       obtain ⟨h1, h2, h3⟩ := hL.mem (getLast_mem hl)
       simp only [headRng, st] at h1 ⊢
-      exact ⟨Pos.le_trans h1 (Pos.lt_le h2), Pos.le_line h3⟩
+      exact ⟨Pos.le_trans h1 h2.1, h3⟩
 
 theorem Der.reslice {F : Nat} {ks : List Kind} {inner : G} {Q : Post} (hg : Der Γ Δ Z F inner Q) :
     Der Γ Δ Z F (.reslice ks inner) (PReslice Z Q) := by
